@@ -363,6 +363,12 @@ func c01(c *core.Ctx) {
 						dom = false
 					}
 				}
+				// also a block without transactions is charged and finalised on the parent's state
+				for _, r := range core.Returns(e) {
+					if r.Block() != e.Recover && !core.Dominates(ci, r) {
+						dom = false
+					}
+				}
 				if dom && len(a) == 1 && core.SliceHasField(core.Slice(a[0]), c.FieldVar("chain/types.Header", "ParentHash")) && core.Slice(a[0])[e.Params[1]] {
 					ok = true
 				}
